@@ -149,7 +149,11 @@ static inline void udeal_yield(struct udeal *udeal, struct upump *upump)
  */
 static inline void udeal_abort(struct udeal *udeal, struct upump *upump)
 {
-    uatomic_fetch_sub(&udeal->waiters, 1);
+    /* Like udeal_yield, pass the notification on: a waiter that registered
+     * after us counted on us to yield, and the event may have been reset by a
+     * refused udeal_grab. */
+    if (uatomic_fetch_sub(&udeal->waiters, 1) > 1)
+        ueventfd_write(&udeal->event);
     upump_stop(upump);
 }
 
